@@ -391,17 +391,6 @@ example :
       display env (draw env s [99]) = [[32, 32], [97, 98], [99, 32], [32, 32]] := by
   decide
 
-/-! #### dispatch -/
-theorem dispatch_IND : escapeDispatch 68 = [.index] := by rfl
-theorem dispatch_NEL : escapeDispatch 69 = [.linefeed] := by rfl
-theorem dispatch_RI : escapeDispatch 77 = [.reverseIndex] := by rfl
-theorem dispatch_LF : basicDispatch 10 = [.linefeed] := by rfl
-theorem dispatch_VT : basicDispatch 11 = [.linefeed] := by rfl
-theorem dispatch_FF : basicDispatch 12 = [.linefeed] := by rfl
-theorem dispatch_IL (ps : List Nat) (p : Bool) : csiDispatch 76 ps p = [.insertLines ps[0]?] := by rfl
-theorem dispatch_DL (ps : List Nat) (p : Bool) : csiDispatch 77 ps p = [.deleteLines ps[0]?] := by rfl
-theorem dispatch_DECSTBM (ps : List Nat) (p : Bool) : csiDispatch 114 ps p = [.setMargins ps[0]? ps[1]?] := by rfl
-
 /-- non-vacuity: a 4-line screen with region rows 1..2, cursor on the bottom margin: index scrolls
     row 2 into row 1, blanks row 2 and leaves rows 0 and 3 alone -/
 example :
